@@ -1,0 +1,84 @@
+/**
+ * @file verif/hooks.h
+ *
+ * @brief Observation points for external verification harnesses
+ *
+ * When ROOTSIM_VERIF is not defined every macro in this header expands to nothing.
+ * When it is defined, the harness must provide verif_hook(); a hook never changes
+ * control flow or data of the runtime, it only reports (and lets a cooperative
+ * scheduler switch threads).
+ *
+ * SPDX-FileCopyrightText: 2008-2022 HPDCS Group <rootsim@googlegroups.com>
+ * SPDX-License-Identifier: GPL-3.0-only
+ */
+#pragma once
+
+#ifdef ROOTSIM_VERIF
+
+#include <stdint.h>
+#include <string.h>
+
+enum verif_point {
+	VP_YIELD = 0,        // pure scheduling point (spin loops, loop tops); args: site id
+	VP_ALLOC,            // a=msg, b=payload size
+	VP_FREE,             // a=msg
+	VP_FREE_AT_GVT,      // a=msg
+	VP_SEND_LOCAL,       // a=msg, b=sender lp
+	VP_SEND_REMOTE,      // a=msg, b=sender lp, c=dest nid
+	VP_Q_PRECAS,         // a=msg (between load and CAS; also on CAS failure)
+	VP_Q_PUSH,           // a=msg, b=destination thread
+	VP_Q_DRAIN,          // a=head of the taken list (or 0)
+	VP_EXTRACT,          // a=msg (or 0)
+	VP_PEEK,             // a=time bits
+	VP_FLAG,             // a=msg, b=previous flags
+	VP_ANTI_LOCAL,       // a=msg, b=previous flags
+	VP_ANTI_REMOTE,      // a=msg, b=dest nid
+	VP_UNDO,             // a=msg, b=previous flags
+	VP_RB_BEGIN,         // a=lp, b=past_i
+	VP_RESTORE,          // a=lp, b=last_i (ref of restored checkpoint), c=past_i
+	VP_RB_END,           // a=lp, b=last_i, c=past_i
+	VP_EXEC,             // a=lp, b=msg
+	VP_CKPT,             // a=lp, b=ref_i, c=full_ckpt_size
+	VP_EARLY_STORE,      // a=lp, b=anti msg
+	VP_EARLY_MATCH,      // a=lp, b=msg, c=anti msg
+	VP_RANTI_MATCH,      // a=lp, b=msg, c=anti msg, d=past_i
+	VP_LP_INIT,          // a=lp, b=msg
+	VP_LP_FINI,          // a=lp
+	VP_FOSSIL,           // a=lp, b=gvt bits, c=entries dropped, d=entries before
+	VP_GVT_START,        // gvt_start_processing
+	VP_GVT_INITIATE,     // round opened by the master thread
+	VP_TPHASE,           // a=new thread phase, b=value bits
+	VP_NPHASE,           // a=new node phase
+	VP_GVT,              // a=gvt bits (value handed to the consumers)
+	VP_DRAIN,            // a=stage
+	VP_TERM_LP,          // a=lp, b=time bits (predicate became true)
+	VP_TERM_UNDO,        // a=lp, b=old time bits
+	VP_VOTE,             // a=gvt bits, b=previous thr_to_end
+	VP_TERM_CTRL,        // a=previous nodes_to_end
+	VP_LOOP_EXIT,        // worker leaves the main loop
+	VP_FINI,             // a=stage
+	VP_BAR_ARRIVE,       // a=counter index, b=previous value, c=phase
+	VP_BAR_LEAVE,        // a=leader
+	VP_NET_RECV,         // a=msg, b=kind (0 event, 1 anti, 2 control), c=code/size
+	VP_COUNT
+};
+
+extern void verif_hook(unsigned point, uint64_t a, uint64_t b, uint64_t c, uint64_t d);
+
+static inline uint64_t verif_d2u(double v)
+{
+	uint64_t r;
+	memcpy(&r, &v, sizeof(r));
+	return r;
+}
+
+#define VERIF_POINT(p, a, b, c, d) verif_hook((p), (uint64_t)(a), (uint64_t)(b), (uint64_t)(c), (uint64_t)(d))
+#define VERIF_YIELD(site) verif_hook(VP_YIELD, (uint64_t)(site), 0, 0, 0)
+#define VERIF_D(v) verif_d2u(v)
+
+#else
+
+#define VERIF_POINT(p, a, b, c, d) ((void)0)
+#define VERIF_YIELD(site) ((void)0)
+
+#endif
